@@ -151,6 +151,9 @@ class Gen:
                                        "tab", "pipe_sq", "lf"])
             cfg["locale"] = r.choice(["utf-8", "utf-8", "latin-1", "cp1252"])
             cfg["bufsize"] = r.choice([4096, 8192, 65536])
+        if cfg["storage"] == "csv" and p.get("cfg_dialects"):
+            cfg["dialect"] = r.choice(["default", "default", "semicolon_all",
+                                       "tab", "pipe_sq", "lf"])
         if cfg["storage"] == "csv":
             cfg["copy_chunk"] = r.choice([0, 0, 1, 7, 64, 4096])
             cfg["tmp_same_fs"] = r.random() < 0.5
